@@ -12,6 +12,7 @@ from specs.acks import *
 def firing(self: Ref['mqtt.client.pubsubs.MQTTProtocol'], r: Ref['obj']) -> bool:
     """precondition of a timer callback: everything is in order except that r's own timer has just fired"""
     return (inv(self) and alarms_set(self) and is_list_bytes(self.transport.tr_out) and self.g_firing == r
+            and (is_none(self.onPublish) or is_func(self.onPublish))
             and isa(r.alarm, 'DelayedCall') and is_int(r.alarm.t_status) and r.alarm.t_status == 2)
 
 
